@@ -248,14 +248,14 @@ Definition is_comp (e : event) : bool :=
 Lemma in_text_total s e tx :
   item_event_ok e = true -> ev_span_ok input e ->
   (is_comp e = true -> dm_eqb (a_define s) DMText = true) ->
-  exists s', in_text input s e tx = Done s' /\ frame s s' /\ exists t', a_block s' = Some (BText t').
+  exists s', in_text input cfg s e tx = Done s' /\ frame s s' /\ exists t', a_block s' = Some (BText t').
 Proof.
   intros Ok Sp D. unfold in_text.
   assert (C : forall sp, byte_slice input sp <> None -> dm_eqb (a_define s) DMText = true ->
     exists s',
       (if negb (dm_eqb (a_define s) DMText) then Panic site_nontext_in_text
        else match byte_slice input sp with
-            | Some sl => Done (set_block s (Some (BText (tx ++ sl))))
+            | Some sl => Done (set_block s (Some (BText (tx ++ comp_src cfg sl))))
             | None => Panic site_in_text_slice
             end) = Done s' /\ frame s s' /\ exists t', a_block s' = Some (BText t')).
   { intros sp Hs Hd. rewrite Hd. cbn [negb]. destruct (byte_slice input sp) as [sl|]; [|congruence].
